@@ -16,7 +16,8 @@ A small total computable model of the code that exists:
 Quirks of the code that the model keeps: `_rotate_files` returns without rotating when the current file is empty
 (`_get_file_size(...) <= 0`) — `_time_rotation` still advances `_next_rotation_time` and still suppresses the size
 check; rotation stops when `_created_files.size() > max_backup_files` with `overwrite_rolled_files` off; only one
-file is deleted per rotation (a smaller `max_backup_files` after a restart never shrinks the set); start-up
+file is deleted per rotation when `deletesAllExcess` is off (finding F18: a smaller `max_backup_files` after a restart
+never shrinks the set; repaired by a `while`); start-up
 recovery exists for Index, only for today's files for Date, not at all for DateAndTime; the Minutely/Hourly first
 point is the next minute/hour boundary whatever the interval.
 
@@ -25,7 +26,8 @@ change at a restart); `FilenameAppendOption::None`; timestamps are `Nat` nanosec
 zone is a function `z : instant → UTC offset in seconds` (GMT = `fun _ => 0`; the theorems are about a constant
 offset, `mktime` is modelled as `local − offset(start)`; DST is out of scope of the theorems).
 The model is parametric in `advancesFromSchedule` (extracted from `_time_rotation`): `true` = the repaired loop
-that advances from the scheduled point, `false` = the pinned `record_ts + period` (finding F9).
+that advances from the scheduled point, `false` = the pinned `record_ts + period` (finding F9) — and in
+`deletesAllExcess` (extracted from `_rotate_files`: `while` vs `if`, finding F18).
 -/
 namespace Rot
 
@@ -107,8 +109,14 @@ structure World where
   sink : Sink
 
 structure Params where
+  /-- `_time_rotation` advances from the scheduled point in a loop (repair of F9) -/
   advancesFromSchedule : Bool
+  /-- `_rotate_files` removes *every* file in excess of `max_backup_files` (`while`, repair of F18), not one per rotation (`if`) -/
+  deletesAllExcess : Bool := true
   deriving DecidableEq, Repr
+
+/-- the code after the `fix:` commits for F9 and F18 -/
+def Params.repaired : Params := { advancesFromSchedule := true, deletesAllExcess := true }
 
 /-! ### civil time (seconds / days since the epoch in the sink's zone) -/
 
@@ -178,7 +186,14 @@ def applyMoves : FS → List (Name × Name) → FS
 /-- does `_rotate_files` return at its first test (backup limit reached, overwriting not allowed)? -/
 def stopped (s : Sink) : Bool := decide (s.created.length > s.cfg.maxBackup) && !s.cfg.overwrite
 
-def rotate (z : Nat → Int) (w : World) (ts : Nat) : World :=
+/-- how many files the deletion step of `_rotate_files` removes from the back of a deque of `len` entries -/
+def excess (all : Bool) (len maxB : Nat) : Nat :=
+  if len > maxB then (if all then len - maxB else 1) else 0
+
+/-- `_remove_file` for each of the entries -/
+def delAll (fs : FS) (l : List FileInfo) : FS := l.foldl (fun fs e => fs.del e.name) fs
+
+def rotate (P : Params) (z : Nat → Int) (w : World) (ts : Nat) : World :=
   let s := w.sink
   let c := s.cfg
   if stopped s then w
@@ -192,13 +207,10 @@ def rotate (z : Nat → Int) (w : World) (ts : Nat) : World :=
         -- close_file(); the loop `for (it = rbegin(); it != rend(); ++it)`: oldest first
         let fs1 := applyMoves w.fs (s.created.filterMap (moveOf c.scheme sfx))
         let cr1 := s.created.map (entryAfter c.scheme sfx)
-        -- `if (_created_files.size() > max_backup_files) { remove(back); pop_back(); }`
-        let fs2 := if cr1.length > c.maxBackup then
-                     match cr1 with
-                     | [] => fs1
-                     | b :: _ => fs1.del b.name
-                   else fs1
-        let cr2 := if cr1.length > c.maxBackup then cr1.tail else cr1
+        -- `while` / `if (_created_files.size() > max_backup_files) { remove(back); pop_back(); }`
+        let n := excess P.deletesAllExcess cr1.length c.maxBackup
+        let fs2 := delAll fs1 (cr1.take n)
+        let cr2 := cr1.drop n
         -- emplace_front(current); open_file(_filename, "w")
         { fs := fs2.put curName [],
           sink := { s with created := cr2 ++ [curInfo], openTs := ts, fileSize := 0 } }
@@ -207,18 +219,18 @@ def rotate (z : Nat → Int) (w : World) (ts : Nat) : World :=
 
 def timeRotation (P : Params) (z : Nat → Int) (w : World) (ts : Nat) : World × Bool :=
   if ts ≥ w.sink.nextRot then
-    let w1 := rotate z w ts
+    let w1 := rotate P z w ts
     ({ w1 with sink := { w1.sink with
          nextRot := advance P.advancesFromSchedule (period w.sink.cfg) w.sink.nextRot ts } }, true)
   else (w, false)
 
-def sizeRotation (z : Nat → Int) (w : World) (size ts : Nat) : World :=
-  if w.sink.fileSize + size > w.sink.cfg.limit then rotate z w ts else w
+def sizeRotation (P : Params) (z : Nat → Int) (w : World) (size ts : Nat) : World :=
+  if w.sink.fileSize + size > w.sink.cfg.limit then rotate P z w ts else w
 
 /-- the state just before `base_type::write_log` -/
 def prepare (P : Params) (z : Nat → Int) (w : World) (size ts : Nat) : World :=
   let r := if w.sink.cfg.freq ≠ .disabled then timeRotation P z w ts else (w, false)
-  if !r.2 ∧ r.1.sink.cfg.limit ≠ 0 then sizeRotation z r.1 size ts else r.1
+  if !r.2 ∧ r.1.sink.cfg.limit ≠ 0 then sizeRotation P z r.1 size ts else r.1
 
 /-- `StreamSink::write_log` appends to the open file; `_file_size += size` -/
 def appendCur (w : World) (st : Stmt) : World :=
